@@ -26,7 +26,7 @@ ASSUMPTIONS = ['input FASTQ is well formed (4 lines per record, equal seq/qual l
                'per-cell output is only combined with barcode strategies (the bulk strategy writes plain strings without a cell)']
 MIN_NONTRIVIAL = {'quick': 100, 'thorough': 2000}
 REQUIRED_MONITORS = ['hook:FastqIterator.__next__', 'hook:target.write', 'hook:reject.write', 'files:strict_parsed',
-                     'oracle:accepted_ids', 'oracle:rejected_ids', 'config:per_cell', 'config:no_reject_handle', 'config:max_read_pairs', 'config:cli', 'config:cli_multi', 'config:cli_auto']
+                     'oracle:accepted_ids', 'oracle:rejected_ids', 'config:per_cell', 'config:no_reject_handle', 'config:max_read_pairs', 'config:cli', 'config:cli_multi', 'config:cli_auto', 'input:filelist', 'input:duplicate', 'input:chunked_lanes']
 SHARD_TIMEOUT = {'quick': 900, 'thorough': 5400}
 
 HDR_KINDS = ['illumina'] * 8 + ['illumina_unknown_index', 'illumina_numeric_index', 'short7', 'scmo', '3dec']
@@ -52,6 +52,52 @@ runpy.run_path(m.__file__, run_name='__main__')
 '''
 
 
+def cli_build_inputs(r, d, name, single, wl, iwl, case_id, acc):
+    """Writes a library as the sequencer delivers it (1-3 lanes, each in 1-3 chunk files of unequal size) and decides how the files are handed to
+    demux.py. Returns (lib, files as given on the command line, all pairs in input order, files on disk, input form)."""
+    lib = 'LIBCLI'
+    lanes = r.randint(1, 3)
+    all_pairs = []
+    files = []
+    indir = os.path.join(d, 'fastq')
+    os.makedirs(indir)
+    rid0 = 0
+    chunked = 0
+    for lane in range(1, lanes + 1):
+        # a lane may be delivered in several chunk files (_001, _002) of unequal size
+        for chunk in range(1, r.choice([1, 1, 2, 3]) + 1):
+            n = r.choice([7, 20, 40, 80])
+            pairs = build_library(r, name, wl, iwl, n, single, case_id, r.choice([41, 93]))
+            for p in pairs:
+                # ids unique and increasing over lanes and chunks
+                p['id'] += rid0
+                p['reads'] = [(fq.header(p['hdr'], p['id'], case_id, m, p['index']),) + rd[1:] for m, rd in enumerate(p['reads'])]
+            rid0 += n
+            paths = [os.path.join(indir, f'{lib}_S1_L00{lane}_R1_00{chunk}.fastq.gz')] + ([] if single else [os.path.join(indir, f'{lib}_S1_L00{lane}_R2_00{chunk}.fastq.gz')])
+            fq.write_fastq(paths, pairs)
+            files += paths
+            all_pairs += pairs
+            chunked += 1 if chunk > 1 else 0
+    # how the files reach the command line is not under the tool's control: any order, a path named twice, or a text file listing them
+    # (a path repeated INSIDE a file list is not pruned by the tool: the lane then has unequal R1/R2 lists and the tool refuses it loudly -
+    # such a list is outside the claim)
+    input_form = r.choice(['sorted', 'shuffled', 'duplicate', 'duplicate', 'filelist', 'filelist'])
+    given = list(files)
+    if input_form != 'sorted':
+        r.shuffle(given)
+    if 'duplicate' in input_form:
+        given.insert(r.randrange(len(given) + 1), r.choice(given))
+    if input_form.startswith('filelist'):
+        listing = os.path.join(d, 'fastq_files.txt')
+        with open(listing, 'w') as f:
+            f.write('\n'.join(given) + '\n')
+        given = [listing]
+    acc.count('input:' + input_form)
+    acc.count('input:chunked_lanes', 1 if chunked else 0)
+    files_on_disk, files = files, given
+    return lib, files, all_pairs, files_on_disk, input_form, lanes
+
+
 def run_cli_case(case):
     import subprocess
     from vlib.common import PY
@@ -64,26 +110,8 @@ def run_cli_case(case):
     with Scratch('c01cli') as d:
         wl = fq.load_whitelists(os.path.join(fq.REPO_DEMUX, 'barcodes'))
         iwl = fq.load_whitelists(os.path.join(fq.REPO_DEMUX, 'indices'))
-        lib = 'LIBCLI'
-        lanes = r.randint(1, 3)
-        all_pairs = []
-        files = []
-        indir = os.path.join(d, 'fastq')
-        os.makedirs(indir)
-        rid0 = 0
+        lib, files, all_pairs, files_on_disk, input_form, lanes = cli_build_inputs(r, d, name, single, wl, iwl, 7700 + case['j'], acc)
         case_id = 7700 + case['j']
-        for lane in range(1, lanes + 1):
-            n = r.choice([20, 40, 80])
-            pairs = build_library(r, name, wl, iwl, n, single, case_id, r.choice([41, 93]))
-            for p in pairs:
-                # ids unique over the lanes
-                p['id'] += rid0
-                p['reads'] = [(fq.header(p['hdr'], p['id'], case_id, m, p['index']),) + rd[1:] for m, rd in enumerate(p['reads'])]
-            rid0 += n
-            paths = [os.path.join(indir, f'{lib}_S1_L00{lane}_R1_001.fastq.gz')] + ([] if single else [os.path.join(indir, f'{lib}_S1_L00{lane}_R2_001.fastq.gz')])
-            fq.write_fastq(paths, pairs)
-            files += paths
-            all_pairs += pairs
         N = len(all_pairs)
         nopt = r.choice([None, None, 1, N - 1, N, N + 3, r.randint(1, N)])
         norejects = r.random() < 0.3
@@ -115,7 +143,8 @@ def run_cli_case(case):
         if single:
             cmd.append('--se')
         cfg = {'cli': True, 'strategy': name, 'k': k, 'single_end_input': single, 'lanes': lanes, 'N': N, 'n_option': nopt, 'norejects': norejects, 'scsepf': scsepf,
-               'selection': mode, 'second_strategy': second, 'argv': [a for a in cmd if a not in files]}
+               'selection': mode, 'second_strategy': second, 'input_form': input_form, 'chunk_files': len(files_on_disk),
+               'argv': [os.path.basename(a) if a in files or a in files_on_disk else a for a in cmd]}
         acc.count('config:cli')
         acc.count('config:cli_' + mode)
         if scsepf:
@@ -258,6 +287,7 @@ def build_library(r, name, wl, iwl, n, single, case_id, qmax):
         p = fq.make_pair(r, lay, wl.get(lay['alias'], []), kind, i + 1, case_id, hdr_kind=base_kind, index_seq=index_seq,
                          qmax=qmax, p_n=0.03, single_end=single, needs=lay.get('needs'))
         p['hk'] = hk
+        p['lay'] = lay
         pairs.append(p)
     return pairs
 
